@@ -2,6 +2,7 @@ import N0Verif.Proofs.XPathDelete
 import N0Verif.Proofs.XPathDeleteRec
 import N0Verif.Proofs.XPathSpellings
 import N0Verif.Props.C01
+import N0Verif.Proofs.XPathHistory
 /-!
 # C05 — delete and pop remove exactly the addressed node
 
@@ -269,5 +270,85 @@ example : renderSp .two [.key ['a'], .key ['b'], .idx .last true, .key ['c']] =
   decide
 example : delete 20 exRec (renderSp .two [.key ['a'], .key ['b'], .idx .last true, .key ['c']]) true =
     (.dict .n0 [(['a'], .dict .plain [(['b'], .list .plain [])]), (['k'], .bool true)], .ok ()) := by decide
+
+/-! ### sequences mixing deletes with C02/C03 writes
+
+`Hist.Op` (defined in `Proofs/XPathHistory.lean`, see `Props/C03.lean` §6): a write to an existing node,
+a creation below an existing dict node, a `delete` or a `pop` of an existing node (both with and
+without `recursively`), each called with the canonical path of the node in the **current** state.
+Reference: `Hist.applyOp` (`setAt`, `createIn`, `delAt`, `pruneUp` on plain trees). -/
+
+/-- **C05 (histories).**  After any sequence mixing deletes and pops with C02/C03 writes the tree
+equals the plain model that applied the same operations; nothing raises; the list `obs` of what the
+calls returned holds, for every `pop`, the node that lookup returned in the state before it. -/
+theorem C05_history (fuel : Nat) (ops : List Hist.Op) (cls : Cls) (kvs : List (Str × Val))
+    (hv : Hist.ValidOps (.dict cls kvs) ops) (hf : ∀ op ∈ ops, fuel ≥ Hist.opFuel op) :
+    ∃ t' obs, Hist.applyOps (.dict cls kvs) ops = some (t', obs) ∧
+      Hist.runOps fuel (.dict cls kvs) ops = (t', .ok obs) :=
+  Hist.history fuel ops cls kvs hv hf
+
+/-- the reference semantics of a `delete`/`pop` inside a history is the one of `C05_delete` /
+`C05_delete_recursive` -/
+theorem C05_history_delRef (t : Val) (p : Pos) (d : Val) :
+    Hist.applyOp t (.del p false) = delAt t p ∧
+    Hist.applyOp t (.pop p d false) = delAt t p ∧
+    Hist.applyOp t (.del p true) = (delAt t p).map (fun t' => pruneUp t' p.dropLast (p.length - 1)) ∧
+    Hist.applyOp t (.pop p d true) = (delAt t p).map (fun t' => pruneUp t' p.dropLast (p.length - 1)) ∧
+    Hist.obsOp t (.pop p d false) = getAt t p := by
+  refine ⟨?_, ?_, rfl, rfl, rfl⟩ <;> simp [Hist.applyOp, Hist.delRef]
+
+/-- **a popped dict entry is not present afterwards**, also inside a history (the state `t` is any
+state the history has reached) -/
+theorem C05_history_pop_gone (t t' : Val) (q : Pos) (k : Str) (d : Val) (cls : Cls) (kvs : List (Str × Val))
+    (hq : getAt t q = some (.dict cls kvs)) (hu : PlainKvs kvs)
+    (ha : Hist.applyOp t (.pop (q ++ [.key k]) d false) = some t') : getAt t' (q ++ [.key k]) = Option.none := by
+  have : delAt t (q ++ [.key k]) = some t' := by simpa [Hist.applyOp, Hist.delRef] using ha
+  exact C05_pop_not_present t t' q k cls kvs hq hu this
+
+/-! Non-vacuity: on `exChain` (`{a: {b: {c: 1}}, k: True}`)
+1. `d.pop('//a/b/c', 'D', recursively=True)` returns 1 and removes `c`, `b`, `a`;
+2. `d['//a/b[new()]/c'] = 2` re-creates below the root;
+3. `d['//k'] = {…}` overwrites a scalar by a container (C02);
+4. `d.delete('//k/z')` removes an entry of the container just written;
+5. `d.delete('//a/b[0]')` removes the list element (the list stays, empty). -/
+theorem pk (c : Char) (h : plainChar c = true := by decide) : PlainKey [c] :=
+  ⟨by simp, by intro x hx; simp at hx; subst hx; exact h, by simp⟩
+
+def exHistory : List Hist.Op :=
+  [ .pop [.key ['a'], .key ['b'], .key ['c']] (.str ['D']) true,
+    .create [] (.name ['a']) [.elem ['b'] ['n', 'e', 'w', '(', ')'], .name ['c']] (.int 2),
+    .write [.key ['k']] (.dict .plain [(['z'], .int 0), (['y'], .none)]),
+    .del [.key ['k'], .key ['z']] false,
+    .del [.key ['a'], .key ['b'], .idx 0] false ]
+
+theorem exHistory_valid : Hist.ValidOps exChain exHistory := by
+  refine .cons (t' := .dict .n0 [(['k'], .bool true)]) ?_ (by decide) ?_
+  · exact ⟨⟨pk 'a', pk 'b', pk 'c', trivial⟩, by simp, _, rfl⟩
+  refine .cons (t' := .dict .n0 [(['k'], .bool true),
+      (['a'], .dict .n0 [(['b'], .list .n0 [.dict .n0 [(['c'], .int 2)]])])]) ?_ (by decide) ?_
+  · refine ⟨trivial, pk 'a', ?_, by simp [GOk, CStep.isName], (by intro h; cases h)⟩
+    intro x hx; simp at hx; rcases hx with rfl | rfl
+    · exact ⟨pk 'b', Or.inl (by decide)⟩
+    · exact pk 'c'
+  refine .cons (t' := .dict .n0 [(['k'], .dict .plain [(['z'], .int 0), (['y'], .none)]),
+      (['a'], .dict .n0 [(['b'], .list .n0 [.dict .n0 [(['c'], .int 2)]])])]) ?_ (by decide) ?_
+  · exact ⟨⟨pk 'k', trivial⟩, by simp, _, rfl⟩
+  refine .cons (t' := .dict .n0 [(['k'], .dict .plain [(['y'], .none)]),
+      (['a'], .dict .n0 [(['b'], .list .n0 [.dict .n0 [(['c'], .int 2)]])])]) ?_ (by decide) ?_
+  · exact ⟨⟨pk 'k', pk 'z', trivial⟩, by simp, _, rfl⟩
+  refine .cons (t' := .dict .n0 [(['k'], .dict .plain [(['y'], .none)]),
+      (['a'], .dict .n0 [(['b'], .list .n0 [])])]) ?_ (by decide) (.nil _)
+  · exact ⟨⟨pk 'a', pk 'b', trivial⟩, by simp, _, rfl⟩
+
+example : Hist.runOps 40 exChain exHistory
+    = (.dict .n0 [(['k'], .dict .plain [(['y'], .none)]), (['a'], .dict .n0 [(['b'], .list .n0 [])])],
+       .ok [some (.int 1), Option.none, Option.none, Option.none, Option.none]) := by decide
+example : ∃ t' obs, Hist.applyOps exChain exHistory = some (t', obs) ∧
+    Hist.runOps 40 exChain exHistory = (t', .ok obs) :=
+  C05_history 40 exHistory .n0 _ exHistory_valid (by decide)
+example : exHistory.map Hist.opPath =
+    [['/', '/', 'a', '/', 'b', '/', 'c'],
+     ['/', '/', 'a', '/', 'b', '[', 'n', 'e', 'w', '(', ')', ']', '/', 'c'],
+     ['/', '/', 'k'], ['/', '/', 'k', '/', 'z'], ['/', '/', 'a', '/', 'b', '[', '0', ']']] := by decide
 
 end N0.C05
